@@ -218,7 +218,11 @@ fn resolve_symbols_and_select_archive_entries<'data, P: Platform>(
 
     symbol_db.restore_definitions(symbol_definitions);
 
-    if let Some(e) = outputs.errors.pop() {
+    // Which error got reported first depends on thread scheduling. Sort them so that we report the
+    // same one every time.
+    let mut errors: Vec<Error> = std::iter::from_fn(|| outputs.errors.pop()).collect();
+    errors.sort_by_cached_key(|e| e.to_string());
+    if let Some(e) = errors.into_iter().next() {
         return Err(e);
     }
 
@@ -534,7 +538,7 @@ impl<'scope, 'data, P: Platform> ResolutionResources<'data, 'scope, P> {
 
     fn handle_result(&self, result: Result) {
         if let Err(error) = result {
-            let _ = self.outputs.errors.push(error);
+            self.outputs.errors.push(error);
         }
     }
 }
@@ -777,7 +781,7 @@ struct Outputs<'data, P: Platform> {
     loaded_lto_objects: ArrayQueue<ResolvedLtoInput>,
 
     /// Any errors that we encountered.
-    errors: ArrayQueue<Error>,
+    errors: SegQueue<Error>,
 
     undefined_symbols: SegQueue<UndefinedSymbol<'data>>,
 }
@@ -789,7 +793,7 @@ impl<'data, P: Platform> Outputs<'data, P> {
             loaded: ArrayQueue::new(num_regular_objects.max(1)),
             #[cfg(feature = "plugins")]
             loaded_lto_objects: ArrayQueue::new(num_lto_objects.max(1)),
-            errors: ArrayQueue::new(1),
+            errors: SegQueue::new(),
             undefined_symbols: SegQueue::new(),
         }
     }
